@@ -170,9 +170,11 @@ def gen_random(rng):
 def gen_schema(rng):
     n = rng.randint(1, 5)
     names = ["T%d" % i for i in range(n)]
-    ref = lambda t: {"$ref": "#/definitions/" + t}
+    has_root = rng.random() < .35
+    # `$ref: "#"` targets the (titled) root schema: cycles that pass through the root only
+    ref = lambda t: {"$ref": "#"} if t == "#" else {"$ref": "#/definitions/" + t}
     def member():
-        t = rng.choice(names)
+        t = rng.choice(names + (["#", "#"] if has_root else []))
         k = rng.choice(["direct", "optional", "nullable_oneof", "nullable_anyof", "tuple", "fixed", "vec", "map", "set", "alias", "inline"])
         if k in ("direct", "optional"): return ref(t), k == "direct"
         if k == "nullable_oneof": return {"oneOf": [ref(t), {"type": "null"}]}, rng.random() < .5
@@ -211,8 +213,9 @@ def gen_schema(rng):
             for j, v in enumerate(vs): v["properties"]["tag%d" % j] = {"type": "string"}; v["required"] = sorted(set(v["required"] + ["tag%d" % j]))
             defs[t] = {"oneOf": vs}
     doc = {"definitions": defs}
-    if rng.random() < .3:
-        doc.update(obj()); doc["title"] = "Root"
+    if has_root:
+        doc.update(obj(1)); doc["title"] = "Root"
+        if rng.random() < .3: doc.pop("definitions")       # the root alone (its members then refer to "#" or dangle)
     return {"schema": doc}
 
 # ------------------------------------------------------------------ canonical projection, oracle
@@ -368,6 +371,12 @@ def corpus():
                         "2": {"kind": "string"}, "3": {"kind": "option", "id": 1}}, "lo": 1, "hi": 2})
     s = [{"schema": {"definitions": {"X": {"type": "object", "properties": {"x": {"$ref": "#/definitions/X"}}},
                                      "R": {"type": "object", "properties": {"f": {"$ref": "#/definitions/X"}}}}}}]
+    # cycles through the root schema only (`$ref: "#"`), with and without definitions
+    s.append({"schema": {"title": "Node", "type": "object", "properties": {"value": {"type": "integer"}, "next": {"$ref": "#"}}}})
+    s.append({"schema": {"title": "Node", "type": "object", "properties": {"pair": {"type": "array", "items": [{"$ref": "#"}, {"type": "string"}], "minItems": 2, "maxItems": 2}},
+                         "definitions": {"Leaf": {"type": "string"}}}})
+    s.append({"schema": {"title": "Node", "type": "object", "properties": {"w": {"$ref": "#/definitions/W"}}, "required": ["w"],
+                         "definitions": {"W": {"type": "object", "properties": {"back": {"$ref": "#"}}}}}})
     return g, s
 
 def check_graph_case(req, a_impl, a_model):
